@@ -9,7 +9,12 @@ LONG = b"n" * 300
 VERYLONG = b"p" * 5000
 
 def files_spec(files):
-    return ";".join("%s=%s" % (H(n), H(c)) if c is not None else H(n) + "/" for n, c in files) if files else "-"
+    """(name, bytes) = file, (name, None) = directory, (name, ("link", target)) = symbolic link"""
+    def one(n, c):
+        if c is None: return H(n) + "/"
+        if isinstance(c, tuple): return "%s@%s" % (H(n), H(c[1]))
+        return "%s=%s" % (H(n), H(c))
+    return ";".join(one(n, c) for n, c in files) if files else "-"
 
 def scenario(groups, files, lines):
     return "app %s %s %s" % ("/".join(groups) if groups else "-", files_spec(files), hexlist(lines))
@@ -58,6 +63,14 @@ def gen(ctx):
             for main in (150, 550):
                 groups = LOGIN + xfer("get", main=main) + [R(b"200 noop"), R(b"221 bye")]
                 yield scenario(groups, files, OPEN + [b"get " + rem + b" " + loc, b"noop", b"exit"])
+    # symbolic links as destination: one that points to an existing file, a dangling one (exists() follows links and says no)
+    lfiles = files + [(b"to-keep", ("link", b"keep.txt")), (b"dangling", ("link", b"no-such-target"))]
+    for loc in (b"to-keep", b"dangling"):
+        for main in (150, 550, 450):
+            groups = LOGIN + xfer("get", main=main) + [R(b"200 noop"), R(b"221 bye")]
+            yield scenario(groups, lfiles, OPEN + [b"get remote.bin " + loc, b"noop", b"exit"])
+        groups = LOGIN + xfer("get", comp=451) + [R(b"200 noop"), R(b"221 bye")]
+        yield scenario(groups, lfiles, OPEN + [b"get remote.bin " + loc, b"noop", b"exit"])
     for comp in (226, 451, 552):
         groups = LOGIN + xfer("get", comp=comp) + [R(b"200 noop"), R(b"221 bye")]
         yield scenario(groups, files, OPEN + [b"get remote.bin fresh.bin", b"noop", b"exit"])
